@@ -33,6 +33,12 @@ CHECKS = {
          'a hang, or an answer differing from the serial run is a violation.',
          'ThreadSanitizer is the race witness; thread timing is sampled; the access table of Sync.tla is a hand transcription',
          'TLC model checking of the locking protocol + TSan-witnessed replay of client programs', '5 C06'),
+ 'C07': ('exploration', 'Expr.tla derives the instances (original, composed transform) of every enumerated expression; originals are imported lattice boxes with one '
+         'face ID and one affine integer property field per face (half seams, mixed channel counts); every exported triangle is checked in exact integer arithmetic: '
+         'run structure, run transform = an instance the spec derives, pulled-back triangle inside the source face its face ID names, orientation vs back-side flag, '
+         'properties = the face field (missing channels zero); a sample of pulled-back triangles is validated by TLC (Prov_Trace.tla).',
+         'lattice transforms only; non-integral (flap) triangles skipped and counted; F20 masks property mismatches of multi-Boolean programs',
+         'TLC-enumerated expressions + exact-integer provenance oracle + TLC trace validation', '5 C07'),
  'C08': ('exploration', 'export -> import -> export compared as canonical triangle multisets (bit-exact properties, IDs, flags, transforms) for every handle of '
          'TLC-generated programs', 'tangents / 32-bit / OBJ paths not covered yet', 'TLC behaviour generation + replay with round-trip oracle', '5 C08'),
  'C09': ('model_checking', 'MeshGL.tla: abstract MeshGL as a record of field classes, the ingest validation ladder transcribed, totality and '
